@@ -160,6 +160,46 @@ fn fingerprint_raw(ks: &Keyspace) -> String {
     )
 }
 
+/// The options as the LSM-tree actually received them (`tree_config()`), next to the stored ones: "in force" means the
+/// engine runs with them, not only that they are remembered.
+fn effective_mismatch(ks: &Keyspace) -> Option<(String, String)> {
+    use lsm_tree::AbstractTree;
+    let c = &ks.config;
+    let t = ks.tree.tree_config();
+    let f32bits = |v: &[f32]| v.iter().map(|x| format!("{:08x}", x.to_bits())).collect::<Vec<_>>().join(",");
+    let filt = |p: &FilterPolicy| {
+        p.iter()
+            .map(|e| match e {
+                FilterPolicyEntry::None => "none".to_string(),
+                FilterPolicyEntry::Bloom(BloomConstructionPolicy::BitsPerKey(b)) => format!("bpk:{:08x}", b.to_bits()),
+                FilterPolicyEntry::Bloom(BloomConstructionPolicy::FalsePositiveRate(b)) => format!("fpr:{:08x}", b.to_bits()),
+            })
+            .collect::<Vec<_>>()
+            .join(",")
+    };
+    let kv = |k: &Option<KvSeparationOptions>| k.as_ref().map(|k| format!("{:?}/{:08x}/{:08x}", k, k.staleness_threshold.to_bits(), k.age_cutoff.to_bits())).unwrap_or_else(|| "none".into());
+    let pairs: Vec<(&str, String, String)> = vec![
+        ("data_block_size", format!("{:?}", &*c.data_block_size_policy), format!("{:?}", &*t.data_block_size_policy)),
+        ("data_compression", format!("{:?}", &*c.data_block_compression_policy), format!("{:?}", &*t.data_block_compression_policy)),
+        ("index_compression", format!("{:?}", &*c.index_block_compression_policy), format!("{:?}", &*t.index_block_compression_policy)),
+        ("restart_interval", format!("{:?}", &*c.data_block_restart_interval_policy), format!("{:?}", &*t.data_block_restart_interval_policy)),
+        ("filter_pinning", format!("{:?}", &*c.filter_block_pinning_policy), format!("{:?}", &*t.filter_block_pinning_policy)),
+        ("index_pinning", format!("{:?}", &*c.index_block_pinning_policy), format!("{:?}", &*t.index_block_pinning_policy)),
+        ("hash_ratio", f32bits(&c.data_block_hash_ratio_policy), f32bits(&t.data_block_hash_ratio_policy)),
+        ("index_partitioning", format!("{:?}", &*c.index_block_partitioning_policy), format!("{:?}", &*t.index_block_partitioning_policy)),
+        ("filter_partitioning", format!("{:?}", &*c.filter_block_partitioning_policy), format!("{:?}", &*t.filter_block_partitioning_policy)),
+        ("filter_policy", filt(&c.filter_policy), filt(&t.filter_policy)),
+        ("kv_separation", kv(&c.kv_separation_opts), kv(&t.kv_separation_opts)),
+    ];
+    for (name, stored, effective) in pairs {
+        if stored != effective {
+            let cut = |s: &str| s.chars().take(120).collect::<String>();
+            return Some((name.to_string(), format!("stored {} but the tree runs with {}", cut(&stored), cut(&effective))));
+        }
+    }
+    None
+}
+
 fn open(dir: &std::path::Path) -> fjall::Result<Database> {
     Database::builder(dir).worker_threads_unchecked(0).open()
 }
@@ -180,6 +220,9 @@ fn run_case(setters: &[&OptVal]) -> Result<String, (String, String)> {
             let ks = db.keyspace("k", || opts).map_err(|x| e("create", x))?;
             f0 = fingerprint(&ks);
             mm = ks.verif_config_scalars().0;
+            if let Some((field, d)) = effective_mismatch(&ks) {
+                return Err((format!("options.not_in_force@{field}"), format!("right after creation: {d}")));
+            }
             // a second keyspace with other options must not disturb the first one's stored options
             let _other = db.keyspace("other", || most_different(true)).map_err(|x| e("create other", x))?;
         }
@@ -187,6 +230,9 @@ fn run_case(setters: &[&OptVal]) -> Result<String, (String, String)> {
             let db = open(&dir).map_err(|x| e("reopen", x))?;
             let ks = db.keyspace("k", || most_different(flip)).map_err(|x| e("open existing", x))?;
             let f = fingerprint(&ks);
+            if let Some((field, d)) = effective_mismatch(&ks) {
+                return Err((format!("options.not_in_force@{field}"), format!("after reopen #{round}: {d}")));
+            }
             if f != f0 {
                 // name the first differing field
                 let a: Vec<&str> = f0.split('\u{1}').collect();
